@@ -8,6 +8,7 @@ From K Require Import Proofs.StepRefines4.
 From K Require Import Proofs.StepRefinesL.
 From K Require Import Proofs.MovExtProofs.
 From K Require Import Proofs.StepRefines6.
+From K Require Import Proofs.StepRefinesMov4 Proofs.StepRefinesMov6 Proofs.StepRefinesMovL.
 Open Scope Z_scope.
 
 (* MOV Rs,Rd (B/W/L): the value of the source lane is copied unchanged into the destination lane, N and Z
@@ -356,6 +357,133 @@ Theorem step_mov_immediate_long :
     exists s', sem_ref (IMovImm SL imm rd) 6 s = Some s' /\ step s = Ok n (set_opc (pc s + 4) s').
 Proof. exact step_mov_imm_l_proof. Qed.
 
+(* ---- displacement and absolute forms, from the instruction words in memory to the reference semantics ---- *)
+(* MOV.B/W: the first word selects the form, the following one (d:16, aa:16) or two (aa:24) words are the operand;
+   MOV.L: behind the 0100 prefix word *)
+Theorem step_mov_load_displacement16 :
+  forall s w d w2 w3 w4 z r disp rd n s',
+  cpu_ok s -> bus_bytes_ok s -> fault s = false -> pc s mod 2 = 0 -> 0 <= pc s -> pc s + 4 < 4294967296 ->
+    mem_read SW s (pc s) = Some w -> mem_read SW s (pc s + 2) = Some d ->
+    decode_ref w d w2 w3 w4 = Some (IMovLoad z (EDisp r disp) rd, 4) ->
+    sem_ref (IMovLoad z (EDisp r disp) rd) 4 s = Some s' ->
+    mov_charge z (ea_addr z s (EDisp r disp)) 2 0 (set_opc (pc s + 2) s') = Ok n (set_opc (pc s + 2) s') ->
+    step s = Ok n (set_opc (pc s + 2) s').
+Proof. exact step_mov_load_disp16_proof. Qed.
+
+Theorem step_mov_store_displacement16 :
+  forall s w d w2 w3 w4 z rs r disp n s',
+  cpu_ok s -> bus_bytes_ok s -> fault s = false -> pc s mod 2 = 0 -> 0 <= pc s -> pc s + 4 < 4294967296 ->
+    mem_read SW s (pc s) = Some w -> mem_read SW s (pc s + 2) = Some d ->
+    decode_ref w d w2 w3 w4 = Some (IMovStore z rs (EDisp r disp), 4) ->
+    sem_ref (IMovStore z rs (EDisp r disp)) 4 s = Some s' ->
+    mov_charge z (ea_addr z s (EDisp r disp)) 2 0 (set_opc (pc s + 2) s') = Ok n (set_opc (pc s + 2) s') ->
+    step s = Ok n (set_opc (pc s + 2) s').
+Proof. exact step_mov_store_disp16_proof. Qed.
+
+Theorem step_mov_load_absolute16 :
+  forall s w d w2 w3 w4 z a rd n s',
+  cpu_ok s -> bus_bytes_ok s -> fault s = false -> pc s mod 2 = 0 -> 0 <= pc s -> pc s + 4 < 4294967296 ->
+    mem_read SW s (pc s) = Some w -> mem_read SW s (pc s + 2) = Some d ->
+    decode_ref w d w2 w3 w4 = Some (IMovLoad z (EAbs a) rd, 4) ->
+    sem_ref (IMovLoad z (EAbs a) rd) 4 s = Some s' ->
+    mov_charge z a 2 0 (set_opc (pc s + 2) s') = Ok n (set_opc (pc s + 2) s') ->
+    step s = Ok n (set_opc (pc s + 2) s').
+Proof. exact step_mov_load_abs16_proof. Qed.
+
+Theorem step_mov_store_absolute16 :
+  forall s w d w2 w3 w4 z rs a n s',
+  cpu_ok s -> bus_bytes_ok s -> fault s = false -> pc s mod 2 = 0 -> 0 <= pc s -> pc s + 4 < 4294967296 ->
+    mem_read SW s (pc s) = Some w -> mem_read SW s (pc s + 2) = Some d ->
+    decode_ref w d w2 w3 w4 = Some (IMovStore z rs (EAbs a), 4) ->
+    sem_ref (IMovStore z rs (EAbs a)) 4 s = Some s' ->
+    mov_charge z a 2 0 (set_opc (pc s + 2) s') = Ok n (set_opc (pc s + 2) s') ->
+    step s = Ok n (set_opc (pc s + 2) s').
+Proof. exact step_mov_store_abs16_proof. Qed.
+
+Theorem step_mov_load_absolute24 :
+  forall s w h l w3 w4 z a rd n s',
+  z <> SL ->
+    cpu_ok s -> bus_bytes_ok s -> fault s = false -> pc s mod 2 = 0 -> 0 <= pc s -> pc s + 6 < 4294967296 ->
+    mem_read SW s (pc s) = Some w -> mem_read SW s (pc s + 2) = Some h -> mem_read SW s (pc s + 4) = Some l ->
+    decode_ref w h l w3 w4 = Some (IMovLoad z (EAbs a) rd, 6) ->
+    sem_ref (IMovLoad z (EAbs a) rd) 6 s = Some s' ->
+    mov_charge z a 3 0 (set_opc (pc s + 4) s') = Ok n (set_opc (pc s + 4) s') ->
+    step s = Ok n (set_opc (pc s + 4) s').
+Proof. exact step_mov_load_abs24_proof. Qed.
+
+Theorem step_mov_store_absolute24 :
+  forall s w h l w3 w4 z rs a n s',
+  z <> SL ->
+    cpu_ok s -> bus_bytes_ok s -> fault s = false -> pc s mod 2 = 0 -> 0 <= pc s -> pc s + 6 < 4294967296 ->
+    mem_read SW s (pc s) = Some w -> mem_read SW s (pc s + 2) = Some h -> mem_read SW s (pc s + 4) = Some l ->
+    decode_ref w h l w3 w4 = Some (IMovStore z rs (EAbs a), 6) ->
+    sem_ref (IMovStore z rs (EAbs a)) 6 s = Some s' ->
+    mov_charge z a 3 0 (set_opc (pc s + 4) s') = Ok n (set_opc (pc s + 4) s') ->
+    step s = Ok n (set_opc (pc s + 4) s').
+Proof. exact step_mov_store_abs24_proof. Qed.
+
+Theorem step_mov_long_load_displacement16 :
+  forall s w1 d w3 w4 r disp rd n s',
+  cpu_ok s -> bus_bytes_ok s -> fault s = false -> pc s mod 2 = 0 -> 0 <= pc s -> pc s + 6 < 4294967296 ->
+    mem_read SW s (pc s) = Some 0x0100 -> mem_read SW s (pc s + 2) = Some w1 -> mem_read SW s (pc s + 4) = Some d ->
+    decode_ref 0x0100 w1 d w3 w4 = Some (IMovLoad SL (EDisp r disp) rd, 6) ->
+    sem_ref (IMovLoad SL (EDisp r disp) rd) 6 s = Some s' ->
+    mov_charge SL (ea_addr SL s (EDisp r disp)) 3 0 (set_opc (pc s + 4) s') = Ok n (set_opc (pc s + 4) s') ->
+    step s = Ok n (set_opc (pc s + 4) s').
+Proof. exact step_movl_load_disp16_proof. Qed.
+
+Theorem step_mov_long_store_displacement16 :
+  forall s w1 d w3 w4 rs r disp n s',
+  cpu_ok s -> bus_bytes_ok s -> fault s = false -> pc s mod 2 = 0 -> 0 <= pc s -> pc s + 6 < 4294967296 ->
+    mem_read SW s (pc s) = Some 0x0100 -> mem_read SW s (pc s + 2) = Some w1 -> mem_read SW s (pc s + 4) = Some d ->
+    decode_ref 0x0100 w1 d w3 w4 = Some (IMovStore SL rs (EDisp r disp), 6) ->
+    sem_ref (IMovStore SL rs (EDisp r disp)) 6 s = Some s' ->
+    mov_charge SL (ea_addr SL s (EDisp r disp)) 3 0 (set_opc (pc s + 4) s') = Ok n (set_opc (pc s + 4) s') ->
+    step s = Ok n (set_opc (pc s + 4) s').
+Proof. exact step_movl_store_disp16_proof. Qed.
+
+Theorem step_mov_long_load_absolute16 :
+  forall s w1 d w3 w4 a rd n s',
+  cpu_ok s -> bus_bytes_ok s -> fault s = false -> pc s mod 2 = 0 -> 0 <= pc s -> pc s + 6 < 4294967296 ->
+    mem_read SW s (pc s) = Some 0x0100 -> mem_read SW s (pc s + 2) = Some w1 -> mem_read SW s (pc s + 4) = Some d ->
+    decode_ref 0x0100 w1 d w3 w4 = Some (IMovLoad SL (EAbs a) rd, 6) ->
+    sem_ref (IMovLoad SL (EAbs a) rd) 6 s = Some s' ->
+    mov_charge SL a 3 0 (set_opc (pc s + 4) s') = Ok n (set_opc (pc s + 4) s') ->
+    step s = Ok n (set_opc (pc s + 4) s').
+Proof. exact step_movl_load_abs16_proof. Qed.
+
+Theorem step_mov_long_store_absolute16 :
+  forall s w1 d w3 w4 rs a n s',
+  cpu_ok s -> bus_bytes_ok s -> fault s = false -> pc s mod 2 = 0 -> 0 <= pc s -> pc s + 6 < 4294967296 ->
+    mem_read SW s (pc s) = Some 0x0100 -> mem_read SW s (pc s + 2) = Some w1 -> mem_read SW s (pc s + 4) = Some d ->
+    decode_ref 0x0100 w1 d w3 w4 = Some (IMovStore SL rs (EAbs a), 6) ->
+    sem_ref (IMovStore SL rs (EAbs a)) 6 s = Some s' ->
+    mov_charge SL a 3 0 (set_opc (pc s + 4) s') = Ok n (set_opc (pc s + 4) s') ->
+    step s = Ok n (set_opc (pc s + 4) s').
+Proof. exact step_movl_store_abs16_proof. Qed.
+
+Theorem step_mov_long_load_absolute24 :
+  forall s w1 h l w4 a rd n s',
+  cpu_ok s -> bus_bytes_ok s -> fault s = false -> pc s mod 2 = 0 -> 0 <= pc s -> pc s + 8 < 4294967296 ->
+    mem_read SW s (pc s) = Some 0x0100 -> mem_read SW s (pc s + 2) = Some w1 ->
+    mem_read SW s (pc s + 4) = Some h -> mem_read SW s (pc s + 6) = Some l ->
+    decode_ref 0x0100 w1 h l w4 = Some (IMovLoad SL (EAbs a) rd, 8) ->
+    sem_ref (IMovLoad SL (EAbs a) rd) 8 s = Some s' ->
+    mov_charge SL a 4 0 (set_opc (pc s + 6) s') = Ok n (set_opc (pc s + 6) s') ->
+    step s = Ok n (set_opc (pc s + 6) s').
+Proof. exact step_movl_load_abs24_proof. Qed.
+
+Theorem step_mov_long_store_absolute24 :
+  forall s w1 h l w4 rs a n s',
+  cpu_ok s -> bus_bytes_ok s -> fault s = false -> pc s mod 2 = 0 -> 0 <= pc s -> pc s + 8 < 4294967296 ->
+    mem_read SW s (pc s) = Some 0x0100 -> mem_read SW s (pc s + 2) = Some w1 ->
+    mem_read SW s (pc s + 4) = Some h -> mem_read SW s (pc s + 6) = Some l ->
+    decode_ref 0x0100 w1 h l w4 = Some (IMovStore SL rs (EAbs a), 8) ->
+    sem_ref (IMovStore SL rs (EAbs a)) 8 s = Some s' ->
+    mov_charge SL a 4 0 (set_opc (pc s + 6) s') = Ok n (set_opc (pc s + 6) s') ->
+    step s = Ok n (set_opc (pc s + 6) s').
+Proof. exact step_movl_store_abs24_proof. Qed.
+
 Print Assumptions mov_register_refines.
 Print Assumptions mov_flags_rule.
 Print Assumptions byte_lane_read.
@@ -393,3 +521,15 @@ Print Assumptions mov_absolute24_store.
 Print Assumptions mov_displacement24_load.
 Print Assumptions mov_displacement24_store.
 Print Assumptions step_mov_immediate_long.
+Print Assumptions step_mov_load_displacement16.
+Print Assumptions step_mov_store_displacement16.
+Print Assumptions step_mov_load_absolute16.
+Print Assumptions step_mov_store_absolute16.
+Print Assumptions step_mov_load_absolute24.
+Print Assumptions step_mov_store_absolute24.
+Print Assumptions step_mov_long_load_displacement16.
+Print Assumptions step_mov_long_store_displacement16.
+Print Assumptions step_mov_long_load_absolute16.
+Print Assumptions step_mov_long_store_absolute16.
+Print Assumptions step_mov_long_load_absolute24.
+Print Assumptions step_mov_long_store_absolute24.
